@@ -1,6 +1,7 @@
 package main
 
 import (
+	psatoken "github.com/veraison/psatoken"
 	"crypto"
 	"crypto/ecdsa"
 	"crypto/ed25519"
@@ -178,6 +179,40 @@ func healthySigner(s SignerSpec) (cose.Signer, error) {
 		return nil, errors.New("no such alg")
 	}
 	return cose.NewSigner(alg, detKey{keyPool[s.Key]})
+}
+
+// BusySigner is a well-behaved signer that does other work with the library
+// before it answers (a signing service that serves several Evidences): every
+// call encodes another claims-set first.
+type BusySigner struct {
+	inner cose.Signer
+	other psatoken.IClaims
+	Calls int
+}
+
+func (b *BusySigner) work() {
+	b.Calls++
+	if b.other == nil {
+		return
+	}
+	defer func() { _ = recover() }()
+	// the injected codec fault of this step is aimed at the attached claims, not at this bystander
+	saved := codecFault
+	codecFault.kind = ""
+	defer func() { codecFault = saved }()
+	_, _ = psatoken.EncodeClaimsToCBOR(b.other)
+	_, _ = psatoken.ValidateAndEncodeClaimsToCBOR(b.other)
+	_, _ = psatoken.EncodeClaimsToJSON(b.other)
+}
+
+func (b *BusySigner) Algorithm() cose.Algorithm {
+	b.work()
+	return b.inner.Algorithm()
+}
+
+func (b *BusySigner) Sign(rand io.Reader, content []byte) ([]byte, error) {
+	b.work()
+	return b.inner.Sign(rand, content)
 }
 
 // FaultySigner wraps a real go-cose signer and misbehaves on demand (seam S6).
